@@ -100,6 +100,9 @@ def mk(h):
     return (h[1], h[2])
 
 
+RECV = bytearray()
+
+
 class Pair:
     def __init__(self):
         self.e = Encoder(); self.d = Decoder()
@@ -127,9 +130,13 @@ class Pair:
             elif op[0] == 'odd':
                 out = self.e.encode([(n, ODD[i]) for n, i in op[1]], huffman=op[2])
             else:
-                out = self.e.encode([mk(h) for h in op[1]], huffman=op[2])
+                hs = [mk(h) for h in op[1]]
+                shape = len(op[1]) % 3
+                out = self.e.encode(hs if shape == 0 else ((x for x in hs) if shape == 1 else iter(hs)), huffman=op[2])
             self.rec(('block', bytes(out).hex()))
-            got = self.d.decode(out, raw=True)
+            # the application receives every block into ONE buffer shared by all connections of the process
+            RECV[:] = out
+            got = self.d.decode(memoryview(RECV) if len(out) % 2 else RECV, raw=True)
             self.rec(('decoded', [(bytes(a).hex(), bytes(b).hex(), type(h).__name__) for h in got for a, b in [h]]))
             self.rec(('tables', [(bytes(a).hex(), bytes(b).hex()) for a, b in self.e.header_table.dynamic_entries],
                       self.e.header_table_size, self.d.header_table_size))
